@@ -13,7 +13,7 @@ for p in sorted(os.listdir(root)):
 waves = sorted({r[2] for r in rows if isinstance(r[2], int)})
 head = f"""# Seeded changes
 
-Changes to benoitkugler/gomacro written by independent sub-agents ({len(waves)} waves, {len(rows)} changes; each agent saw only the text of one property and a scratch worktree of /repo, nothing from /verif). Each breaks its property while the project still compiles and the existing tests pass; each was re-confirmed with `tools/confirm-seeded.sh <id> <name>` (demonstration passes on HEAD, fails with the patch). `tools/run-seeded.sh` runs every patch against the quick tier of its property; all are detected, except those marked *neutralised*: a later `fix:` commit in /repo removed the precondition under which the change broke the property (the meta.json says which). `missed at first` = the first version of the check did not detect it; the `strengthening` field of the meta.json says what was changed.
+Changes to benoitkugler/gomacro written by independent sub-agents ({len(waves)} waves, {len(rows)} changes; each agent saw only the text of one property and a scratch worktree of /repo, nothing from /verif). Each breaks its property while the project still compiles and the existing tests pass; each was re-confirmed with `tools/confirm-seeded.sh <id> <name>` (demonstration passes on HEAD, fails with the patch). `tools/run-seeded.sh` runs every patch against the quick tier of its property; all are detected, except those marked *neutralised* - a later `fix:` commit in /repo removed the precondition under which the change broke the property (the meta.json says which) - and those whose entry says in bold what is not detected and why. `missed at first` = the first version of the check did not detect it; the `strengthening` field of the meta.json says what was changed.
 
 | property | name | wave | missed at first | what |
 |---|---|---|---|---|
